@@ -108,6 +108,8 @@ def oracle(ctx, label, data, o, names):
             key = "decompile-use-before-definition"
         else:
             key = f"decompile-exec-raises:{type(e).__name__}"
+        if de.scheme_name_collision(o) and not isinstance(e, SyntaxError):
+            key = "global-name-captures-decompiler-variable"
         agg.violation(key, f"fickling accepted the pickle but executing its decompile raises {type(e).__name__}: {str(e)[:120]}",
                       diffrun.witness(label, data, names, decompile=o.src[:600]))
         return
@@ -117,6 +119,8 @@ def oracle(ctx, label, data, o, names):
         return
     if not o.value_equal:
         key, what = classify_value(o)
+        if de.scheme_name_collision(o):
+            key = "global-name-captures-decompiler-variable"
         agg.violation(key, what, diffrun.witness(label, data, names, decompile=o.src[:600],
                                                  vm_value=str(o.ref_canon)[:400], dec_value=str(o.dec_canon)[:400]))
 
